@@ -104,6 +104,32 @@ def gen_parked_scenario(rng, sid, end_after, end=None, per_batch=None):
     return sc
 
 
+def gen_batch_api_scenario(rng, sid, cancel_after, end, fault=None):
+    """The batch API inside a transaction: create_batch() + send_batch(); the application gives up on the returned
+    future (cancels it, as a wait_for() that times out does) while the Produce request is delayed or being
+    retried, then ends the transaction; the next transaction on the partition ends the other way."""
+    partitions = rng.choice([1, 2])
+    brokers = rng.choice([1, 2])
+    items = [{"p": 0, "sleep": 0, "n": rng.choice([1, 2, 3]), "batch": True, "cancel_after": cancel_after}]
+    if rng.random() < 0.5:
+        items.append({"p": rng.randrange(partitions), "sleep": 0.001, "n": 1, "batch": True})
+    tasks = [items]
+    if rng.random() < 0.4:
+        tasks.append([{"p": rng.randrange(partitions), "sleep": 0, "n": 1}])
+    first = {"tasks": tasks, "offsets": None, "await_sends": False, "end": end, "pause": 0,
+             "end_after": cancel_after + rng.choice([0.001, 0.004, 0.02])}
+    second = {"tasks": [[{"p": q, "sleep": 0, "n": 1}] for q in range(partitions)],
+              "offsets": None, "await_sends": True, "end": "abort" if end == "commit" else "commit", "pause": 0}
+    sc = {"id": sid, "seed": rng.randrange(1 << 30), "brokers": brokers, "partitions": partitions,
+          "marker_delay": 0.0, "linger_ms": 0, "max_batch_size": 16384, "request_timeout_ms": 2000,
+          "retry_backoff_ms": 20, "txn_coord": rng.randrange(brokers), "group_coord": rng.randrange(brokers),
+          "instances": [{"start_at": 0.0, "txns": [first, second]}],
+          "faults": {"Produce:1": fault or mk_fault("delay", 0)}, "moves": {}, "loading": {}, "kills": [],
+          "quiet": 8.0, "family": "batch-api-cancelled-future"}
+    number_offsets(sc)
+    return sc
+
+
 PARKED_END_AFTER = [0.0005, 0.002, 0.003, 0.004, 0.005, 0.006, 0.0075, 0.009, 0.011, 0.014, 0.02]
 
 
@@ -555,6 +581,13 @@ def build_scenarios(ck):
         for ea in PARKED_END_AFTER:
             scs.append(gen_parked_scenario(random.Random(shape_seed), sid, ea))
             sid += 1
+    # (c) the batch API with a returned future the application cancels while its Produce request is delayed,
+    #     retried or unanswered
+    for ca in (0.002, 0.01, 0.05):
+        for end in ("commit", "abort"):
+            for fault in (mk_fault("delay", 0), mk_fault("error", 6), mk_fault("drop_after", 0))[:ck.n(2, 3)]:
+                scs.append(gen_batch_api_scenario(rng, sid, ca, end, fault))
+                sid += 1
     return scs, sid, rng
 
 
@@ -594,7 +627,8 @@ def run(ck: Check):
                       "before/after/concurrently, commit or abort, marker delay, coordinator placement; family "
                       "'parked sends': records so large that a batch holds one or two, 3-6 concurrent send tasks "
                       "parked in the accumulator, commit/abort issued at each time of a grid after begin without "
-                      "waiting for them, followed by a transaction ending the other way) with a fault "
+                      "waiting for them, followed by a transaction ending the other way; family 'batch API': create_batch()/send_batch() whose "
+                      "returned future the application cancels while the Produce request is delayed or retried) with a fault "
                       "plan (single faults enumerated over every ordinal of every transactional API of base runs; "
                       "coordinator moves; loading windows; kills at every request of an instance, applied or not, "
                       "followed by a replacement instance; random multi-fault plans); non-trivial = at least one "
